@@ -27,15 +27,15 @@ import (
 //           names the innermost core frame of the dominant allocation site
 //           (heap profile of one more solo run).
 //   cpu:    per-call thread CPU time (getrusage(RUSAGE_THREAD), goroutine
-//           locked to its thread); bound = max(100 ms, 10^4 * c * (len+64))
-//           with c the per-byte cost measured on the valid inputs of the same
-//           entry point in the same run; confirmed by a solo re-run, otherwise
+//           locked to its thread); bound = max(250 ms, 10^4 * c * (len+64))
+//           with c the per-byte cost measured in the same run on the inputs of the
+//           same entry point that stayed within the bound (valid inputs first); confirmed by a solo re-run, otherwise
 //           inconclusive.
 
 const (
 	allocSlack   = 1 << 20
 	allocPerByte = 1024
-	cpuFloorNs   = 100_000_000
+	cpuFloorNs   = 250_000_000
 	cpuMargin    = 10_000
 )
 
@@ -345,7 +345,10 @@ func (m *mon) window(f *feeder, cs []tcase) {
 		}
 		o[out[i]]++
 		b.MaxOf("max_call_cpu_ns", cpu[i])
-		if c.class == "valid" {
+		// calibration of the per-byte cost: the valid inputs first (they are fed first), then every call
+		// that stayed within the bound (getrusage has microsecond resolution: only sums over many calls
+		// are meaningful, and hostile-but-harmless inputs are legitimately slower per byte than valid ones)
+		if c.class == "valid" || cpu[i] <= m.cpuBound(t, len(c.data)) {
 			cal := m.cal[t.name]
 			if cal == nil {
 				cal = &calib{}
